@@ -51,7 +51,7 @@ impl Check for IdentityCheck {
         "C32"
     }
     fn budget(&self, tier: &str) -> usize {
-        if tier == "thorough" { 20_000 } else { 1500 }
+        if tier == "thorough" { 600_000 } else { 30_000 }
     }
     fn gen_case(&self, seed: u64, _idx: usize, _tier: &str, avoid: &[String]) -> Case {
         let mut rng = Rng::new(seed, "workload");
@@ -283,7 +283,7 @@ impl Check for LimitsCheck {
         "C33"
     }
     fn budget(&self, tier: &str) -> usize {
-        if tier == "thorough" { 60000 } else { 6000 }
+        if tier == "thorough" { 600_000 } else { 30_000 }
     }
     fn gen_case(&self, seed: u64, idx: usize, _tier: &str, _avoid: &[String]) -> Case {
         let mut rng = Rng::new(seed, "workload");
